@@ -14,15 +14,20 @@ import (
 	"verif/checks/c11"
 	"verif/checks/c12"
 	"verif/checks/c13"
+	"verif/checks/c14"
 	"verif/checks/c15"
 	"verif/checks/c16"
 	"verif/checks/c17"
+	"verif/checks/c18"
 	"verif/checks/c19"
 	"verif/checks/c20"
 	"verif/common"
 )
 
 func init() {
+	registry["C18"] = c18.Run
+	registry["C18-race"] = func(ctx *common.Ctx) int { return c18.Race(ctx, flagGomaxprocs) }
+	registry["C14"] = c14.Run
 	registry["C13"] = c13.Run
 	registry["C20"] = c20.Run
 	registry["C17"] = c17.Run
